@@ -178,6 +178,7 @@ inductive Err where
   | unexpMain      -- "Unexpected element in main phase"
   | unexpEnd       -- "Unexpected element in end phase"
   | currentMismatch -- "Current node doesn't match tag"
+  | secondDoctype  -- "Unexpected second DOCTYPE in start phase"
 deriving Repr, DecidableEq
 
 def optUri (v : Str) : Option Str := if v = [] then none else some v
@@ -318,9 +319,11 @@ structure State where
   created : List Created
   /-- parse errors, most recent first -/
   errors : List Err
+  /-- `doctype_seen`: a doctype has been appended to the document (mod.rs, since /repo commit b61995b) -/
+  doctypeSeen : Bool
 deriving Repr
 
-def State.init : State := ⟨.start, [], [], none, [], [defaultMap], [], []⟩
+def State.init : State := ⟨.start, [], [], none, [], [defaultMap], [], [], false⟩
 
 def State.err (s : State) (es : List Err) : State := { s with errors := es.reverse ++ s.errors }
 
@@ -406,7 +409,9 @@ def step (cfg : TbCfg) (s : State) (tok : Token) : Except String State :=
     | .pi t d => .ok (s.appendDoc (.pi t d))
     | .chars cs => if !anyNotWhitespace cs then .ok s else .ok (s.err [.unexpStart])
     | .eof => .ok { s.err [.eofInStart] with phase := .end_ }
-    | .doctype n p sy => .ok (s.appendDoc (.doctype (optStr n) (optStr p) (optStr sy)))
+    | .doctype n p sy =>
+      if s.doctypeSeen then .ok (s.err [.secondDoctype])
+      else .ok ({ s with doctypeSeen := true }.appendDoc (.doctype (optStr n) (optStr p) (optStr sy)))
     | _ => .ok (s.err [.unexpStart])
   | .main =>
     match tok with
